@@ -12,6 +12,7 @@ Hdr == File.hdr
 FlagsT == [n \in Node |-> Range(Hdr.flags[n])]
 CandsT == [n \in Node |-> [relays |-> Hdr.cands[n].relays, exits |-> Hdr.cands[n].exits]]
 FirstT == [n \in Node |-> Hdr.first[n]]
+RankT == [n \in Node |-> 0]
 
 VARIABLES tid, l
 tvars == <<vars, tid, l>>
